@@ -57,7 +57,8 @@ fn summary(bin: &str, n: usize, m: usize, f: usize) -> String {
         if l.is_empty() { "-".into() } else { crate::util::hex(l.join("|").as_bytes()) }
     };
     let Ok(o1) = Command::new(bin).arg("-k").arg("100").output() else { return "spawn-failed".into() };
-    for i in 0..m { std::fs::write(format!("in{}", i), "22").unwrap(); }
+    // an explicit later mtime: the change must be visible whatever the file system's timestamp granularity
+    for i in 0..m { crate::proj::write_file(std::path::Path::new(&format!("in{}", i)), b"22", 2_000_000_000 + i as i64); }
     for i in 0..f { mf.push_str(&format!("build bad{}: bad\n", i)); }
     std::fs::write("build.ninja", &mf).unwrap();
     let Ok(o2) = Command::new(bin).arg("-k").arg("100").output() else { return "spawn-failed".into() };
